@@ -957,7 +957,7 @@ def check(ctx, label, cases, transform, execute, *, entry='kernel', max_disagree
         raise MachineryError(f"{stats['orig_failed']} generated programs do not build/run with gfortran, e.g. {bad['drop']}\n{bad['text']}")
     kw = dict(env_name='TCASES', timeout=2400, per_shard_min=8)
     if shards:
-        kw['shards'] = shards
+        kw['shards'] = max(1, min(shards, len(tcases) // 8))
     verdicts = ctx.validate('Trace_Transpile', 'Trace_Transpile', tcases, **kw) if tcases else {}
     bad, legal, judged = {}, {}, set()
     for i, (idx, k, hasobs) in enumerate(tmeta):
